@@ -3,8 +3,12 @@ PROP = {
     "coq_targets": ["Properties/C01.vo", "Extract/C01Extract.vo"],
     "properties_file": "Properties/C01.v",
     "theorems": ["C01_get", "C01_lpm", "C01_getLonger", "C01_dump", "C01_count",
-                 "C01_spec_is_a_map", "C01_refines", "C01_noncanonical_refuted"],
+                 "C01_spec_is_a_map", "C01_refines", "C01_noncanonical_refuted",
+                 "C01_refines_ipv4", "C01_refines_ipv6", "C01_refines_ipv4_gen", "C01_refines_ipv6_gen",
+                 "C01_noncanonical_refuted_words"],
     "allowed_axioms": [],
+    # the word-level theorems are also stated on the prefix operations REGENERATED from $VERIF_REPO/net (coq/Gen/NetGen.v)
+    "gen": [{"name": "gosub2coq", "cmd": ["python3", "tools/gosub2coq/run.py"], "timeout": 600}],
     "harness": "c01",
     "modelrun": {"name": "c01", "extracted": ["c01_model"], "driver": "ocaml/c01/c01_run.ml"},
     "tiers": {"quick": {"cases": 3000}, "thorough": {"cases": 40000}},
